@@ -2,6 +2,8 @@ import Compute.Model.Transforms
 import Compute.Model.Binom
 import Compute.Lemmas.C17Binom
 import Mathlib.Analysis.SpecialFunctions.Pow.Real
+import Mathlib.Analysis.SpecialFunctions.Pow.Deriv
+import Mathlib.Analysis.Calculus.Deriv.Slope
 import Mathlib.Analysis.SpecialFunctions.Trigonometric.Basic
 import Mathlib.Tactic.Ring
 import Mathlib.Tactic.Linarith
@@ -194,6 +196,25 @@ theorem boxcox_zero (x : ℝ) (hx : 0 < x) : boxcox x 0 = some (Real.log x) := b
   unfold boxcox boxcoxBody
   rw [if_pos hx]
   simp [ln_real]
+
+/-- The `λ = 0` branch is the continuous extension: `(x^λ − 1)/λ → ln x` as `λ → 0`, `λ ≠ 0`. -/
+theorem boxcox_limit (x : ℝ) (hx : 0 < x) :
+    Filter.Tendsto (fun l : ℝ => (x ^ l - 1) / l) (nhdsWithin 0 {0}ᶜ) (nhds (Real.log x)) := by
+  have h := (Real.hasStrictDerivAt_const_rpow hx 0).hasDerivAt
+  rw [hasDerivAt_iff_tendsto_slope_zero] at h
+  simp only [zero_add, Real.rpow_zero, one_mul, smul_eq_mul] at h
+  refine h.congr (fun l => ?_)
+  rw [div_eq_inv_mul]
+
+/-- ... stated for the model's body: `boxcoxBody x` is continuous at `λ = 0`. -/
+theorem boxcoxBody_tendsto_zero (x : ℝ) (hx : 0 < x) :
+    Filter.Tendsto (fun l : ℝ => boxcoxBody x l) (nhdsWithin 0 {0}ᶜ) (nhds (boxcoxBody x 0)) := by
+  have e0 : boxcoxBody x (0 : ℝ) = Real.log x := by simp [boxcoxBody, ln_real]
+  rw [e0]
+  refine (boxcox_limit x hx).congr' ?_
+  filter_upwards [self_mem_nhdsWithin] with l hl
+  have : l ≠ 0 := hl
+  simp [boxcoxBody, this, pow_real]
 
 theorem boxcoxShifted_defined_iff (x l a : ℝ) : (boxcoxShifted x l a).isSome ↔ 0 < x + a := by
   unfold boxcoxShifted; split <;> simp_all
